@@ -457,10 +457,10 @@ func r08d(c *core.Ctx) {
 					}
 				}
 			}
-			st := core.Expr(rs[1])
+			st := core.Expr(core.Unspill(rs[1]))
 			got := "?"
 			if x != nil {
-				got = core.Expr(x)
+				got = core.Expr(core.Unspill(x))
 			}
 			c.Check(x != nil && got == st, key, subAt.Pos(), get, "delta = uint32(time.Since(storedTime).Seconds()) of the same storedTime that is returned for the entry", "delta from "+got+" storedTime="+st)
 			// m is produced by unpackCacheMsg of the backend value of that same lookup
